@@ -124,6 +124,19 @@ func famLabel(i int) string { return fmt.Sprintf("family-%d", i) }
 func TestC03(t *testing.T) {
 	st := NewStats("C03")
 	defer st.Flush()
+	var rp struct {
+		Iso *isoBatch `json:"iso"`
+	}
+	if os.Getenv("VERIF_REPLAY") != "" {
+		if loadReplay(t, &rp) && rp.Iso != nil {
+			if msg, _ := checkIsoBatch(rp.Iso); msg != "" {
+				fail(st, t, msg, rp)
+			}
+			return
+		}
+	} else {
+		t.Run("isolated-batch", func(t *testing.T) { runIsoBatches(t, st) })
+	}
 	runModelProperty(t, st, "C03", func(rt *rapid.T) modelCase {
 		cfg := DefaultCfg()
 		cfg.PBatch, cfg.PConv, cfg.MaxTx, cfg.PGarbage, cfg.PSPR = 45, 25, 5, 0, 10
@@ -398,5 +411,164 @@ func TestC16(t *testing.T) {
 		st.Add("peg_requests_paid", int64(res.Flags["peg-request"]))
 		st.Add("bank_limited_allocations", int64(res.Flags["bank-limited"]))
 		return ""
+	})
+}
+
+// ---- C03, model-free part: an isolated batch is applied completely or not at all.
+//
+// One held batch executes alone at a rated height (the miners paid in that block
+// are disjoint from the batch's addresses). Oracle without the reference model:
+// a batch whose status is a reject code must leave every balance of its input
+// address and of its recipients exactly as before the block; a wedge on a batch
+// shape that is a registered finding is counted, any other wedge is C08's.
+type isoBatch struct {
+	Sc       *Scenario `json:"sc"`
+	ExecH    uint32    `json:"exec_height"`
+	Hash     string    `json:"hash"`
+	Involved []string  `json:"involved"` // address hex
+	Mixed    bool      `json:"mixed_peg_batch"`
+}
+
+func genIsoBatch(t *rapid.T, st *Stats) *isoBatch {
+	k := rapid.IntRange(5, 8).Draw(t, "k")
+	start := uint32(144*k + rapid.IntRange(1, 100).Draw(t, "off"))
+	legacy := rapid.Bool().Draw(t, "legacy")
+	var era Era
+	if legacy {
+		era = LegacyBankEra(start, uint32(rapid.IntRange(1, 12).Draw(t, "v4off")))
+	} else {
+		era = ModernEra(start)
+	}
+	w := NewWorld(t, era, 40)
+	miners := w.Actors[20:40]
+	owner := w.Actors[0]
+	grade := func() []Entry { return w.OPRSet(OPRSetOpts{N: 26, Miners: miners}) }
+	// fund the owner: PEG by mining (one block pays him) and, in the legacy era, pFCT by a burn
+	b := &Block{OPR: w.OPRSet(OPRSetOpts{N: 26, Miners: append([]Actor{owner, owner, owner}, miners...)})}
+	if legacy {
+		b.Fct = []FctTx{BurnTx(w.H(), owner, 500e8, 1)}
+	}
+	w.Commit(b)
+	w.Commit(&Block{OPR: w.OPRSet(OPRSetOpts{N: 26, Miners: append([]Actor{owner, owner}, miners...)})})
+	w.Commit(&Block{OPR: grade(), TX: []Entry{w.Conversion(owner, TPEG, w.Bal(owner, TPEG)/3, TUSD)}})
+	w.Commit(&Block{OPR: grade()})
+	// the batch: 2-4 transactions over PEG / pUSD / pFCT with amounts around the balances
+	assets := []int{TPEG, TUSD}
+	if legacy {
+		assets = append(assets, TFCT)
+	}
+	n := rapid.IntRange(2, 4).Draw(t, "ntx")
+	var txs []Tx
+	ib := &isoBatch{Involved: []string{owner.AddrHex()}}
+	hasPegReq, other := false, false
+	for i := 0; i < n; i++ {
+		a := assets[rapid.IntRange(0, len(assets)-1).Draw(t, "asset")]
+		amt := w.AimAmount(w.Bal(owner, a)/uint64(rapid.IntRange(1, 3).Draw(t, "div")), "amt")
+		if rapid.IntRange(0, 2).Draw(t, "conv") == 0 {
+			dsts := []int{TUSD, 3, TPEG}
+			d := dsts[rapid.IntRange(0, 2).Draw(t, "dst")]
+			if d == a {
+				d = 4
+			}
+			if d == TPEG {
+				hasPegReq = true
+			} else {
+				other = true
+			}
+			txs = append(txs, Tx{From: owner.FA(), Asset: Tickers[a-1], Amt: amt, Conv: Tickers[d-1]})
+		} else {
+			to := w.Actors[1+rapid.IntRange(0, 3).Draw(t, "to")]
+			ib.Involved = append(ib.Involved, to.AddrHex())
+			other = true
+			txs = append(txs, Tx{From: owner.FA(), Asset: Tickers[a-1], Amt: amt, Outs: []Xfer{{To: to.FA(), Amt: amt}}})
+		}
+	}
+	// make sure it is held: at least one conversion
+	conv := false
+	for _, x := range txs {
+		if x.Conv != "" {
+			conv = true
+		}
+	}
+	if !conv {
+		txs = append(txs, Tx{From: owner.FA(), Asset: "PEG", Amt: 1, Conv: "pUSD"})
+	}
+	ib.Mixed = legacy && hasPegReq && other
+	e := w.Batch(owner, txs)
+	eh := HashOn(ChTX, e)
+	ib.Hash = fmt.Sprintf("%x", eh[:])
+	w.Commit(&Block{OPR: grade(), TX: []Entry{e}})
+	ib.ExecH = w.H()
+	w.Commit(&Block{OPR: grade()})
+	w.Commit(&Block{OPR: grade()})
+	ib.Sc = w.Scenario()
+	return ib
+}
+
+func checkIsoBatch(ib *isoBatch) (msg string, outcome string) {
+	dir, done := caseDir()
+	defer done()
+	n, err := OpenNode(dir+"/db", ib.Sc.Era, ib.Sc.Chain, NodeOpts{})
+	if err != nil {
+		return "harness: " + err.Error(), ""
+	}
+	defer n.Close()
+	var before, after map[string]map[string]uint64
+	res := n.SyncTo(ib.Sc.Chain.Tip, SyncOpts{Step: true, OnBlock: func(h uint32) bool {
+		if h == ib.ExecH-1 {
+			before, _ = Balances(n.P.Pegnet.DB)
+		}
+		if h == ib.ExecH {
+			after, _ = Balances(n.P.Pegnet.DB)
+		}
+		return true
+	}})
+	if !res.OK(ib.Sc.Chain.Tip) {
+		if ib.Mixed && res.WedgedAt == ib.ExecH {
+			return "", "wedge(registered finding)"
+		}
+		return "harness: chain did not sync (C08's business): " + res.String(), ""
+	}
+	o := &dbObserver{db: n.P.Pegnet.DB}
+	status, ok := o.Status(ib.Hash)
+	if !ok {
+		return "the batch has no history record", ""
+	}
+	if status >= 0 {
+		if status == 0 {
+			return "", "pending/no-effect"
+		}
+		return "", "executed"
+	}
+	for _, a := range ib.Involved {
+		for c, v := range before[a] {
+			if after[a][c] != v {
+				return fmt.Sprintf("batch %s… is reported rejected (code %d) but %s… %s changed from %d to %d in the block that rejected it", ib.Hash[:12], status, a[:12], c, v, after[a][c]), ""
+			}
+		}
+		for c, v := range after[a] {
+			if before[a][c] != v {
+				return fmt.Sprintf("batch %s… is reported rejected (code %d) but %s… %s changed from %d to %d in the block that rejected it", ib.Hash[:12], status, a[:12], c, before[a][c], v), ""
+			}
+		}
+	}
+	return "", fmt.Sprintf("rejected(%d)", status)
+}
+
+func runIsoBatches(t *testing.T, st *Stats) {
+	rapid.Check(t, func(rt *rapid.T) {
+		ib := genIsoBatch(rt, st)
+		msg, outcome := checkIsoBatch(ib)
+		if outcome == "wedge(registered finding)" {
+			st.Exclude("C16/mixed-peg-batch")
+		}
+		lab := []string{"iso-" + outcome}
+		if ib.Mixed {
+			lab = append(lab, "iso-mixed-legacy-peg-batch")
+		}
+		st.Case(fmt.Sprint("iso", ib.Sc.Chain.Start, ib.Hash), lab...)
+		if msg != "" {
+			fail(st, rt, msg, map[string]interface{}{"iso": ib})
+		}
 	})
 }
